@@ -20,6 +20,9 @@
                      result (0 1) inside, (0 0) outside, (2 fn arg) a libm value is missing.
                      A Panic of the model step ends the simulation INSIDE the envelope: the differential
                      run shows it.
+   "nopanic.envq"  : the same decision with tighter bounds (allocation sizes and vector lengths <= 3000, size
+                     measure <= 20000): the filter the generators of the model-compared streams apply, so
+                     that the list-based model stays fast.  Inside it implies inside the envelope.
    "nopanic.check" : (case observed) -> 1 the observed result is a normal return, 0 it is a panic / abort,
                      2 the case lies outside the envelope.  Two case shapes: a `run` case (6 elements)
                      and a `randcode` case (4 elements), whose observed payload (N k texts) counts the
@@ -86,7 +89,17 @@ Definition depths (l : list item) : Z := fold_right (fun x a => Z.max (depth x) 
 Definition nesting (s : state) : Z :=
   Z.max (depths (st_code s)) (Z.max (depths (st_exec s)) (depths (map snd (st_bind s)))).
 
-Definition size_guard (s : state) : bool := (measure s <=? SIZE_BOUND) && (nesting s <=? DEPTH_BOUND).
+(* the bounds that differ between the envelope and the generators' tighter filter "nopanic.envq" *)
+Record bounds := { b_alloc : Z; b_size : Z; b_veclen : Z }.
+Definition env_bounds : bounds := {| b_alloc := ALLOC_BOUND; b_size := SIZE_BOUND; b_veclen := SIZE_BOUND |}.
+(* what the generated cases of the model-compared streams are held to: the list-based model is quadratic in the
+   vector length for the element-wise vector instructions and in the points for some CODE instructions *)
+Definition quick_bounds : bounds := {| b_alloc := 3000; b_size := 20000; b_veclen := 3000 |}.
+
+Definition max_len {A} (l : list (list A)) : Z := fold_right (fun x a => Z.max (zlen x) a) 0 l.
+Definition size_guard (b : bounds) (s : state) : bool :=
+  (measure s <=? b_size b) && (nesting s <=? DEPTH_BOUND) &&
+  (max_len (st_bvec s) <=? b_veclen b) && (max_len (st_fvec s) <=? b_veclen b) && (max_len (st_ivec s) <=? b_veclen b).
 
 (* ---- the guard ---- *)
 Definition ints_le (k : nat) (b : Z) (s : state) : bool := forallb (fun z => z <=? b) (firstn k (st_int s)).
@@ -101,10 +114,10 @@ Definition cmd_guard (s : state) : bool :=
   | [] => true
   end.
 
-Definition instr_guard (s : state) : bool :=
+Definition instr_guard (b : bounds) (s : state) : bool :=
   match st_exec s with
   | IInstr n :: _ =>
-      if str_mem n alloc_names then ints_le 1 ALLOC_BOUND s
+      if str_mem n alloc_names then ints_le 1 (b_alloc b) s
       else if str_mem n nbr_names then ints_le 4 NBR_BOUND s
       else if str_eqb n cmd_name then cmd_guard s
       else if str_eqb n code_rand_name then
@@ -120,19 +133,20 @@ Section Sim.
   Context {FO : FloatOps}.
   Variable p : profile.
   Variable reg : registry.
+  Variable b : bounds.
 
   (* [grow]: stop like the run loop does when a step exceeds the growth cap *)
   Fixpoint sim (grow : bool) (k : nat) (w : world) (s : state) : res bool :=
-    if negb (size_guard s) then Ok false
+    if negb (size_guard b s) then Ok false
     else match k with
          | O => Ok true
          | S k' =>
-             if negb (instr_guard s) then Ok false
+             if negb (instr_guard b s) then Ok false
              else match step p reg w s with
                   | Ok (fin, w', s') =>
                       if fin then Ok true
                       else if grow && (state_size s + cfg_growth_cap (st_cfg s') <? state_size s')
-                           then Ok (size_guard s')
+                           then Ok (size_guard b s')
                            else sim grow k' w' s'
                   | Panic => Ok true
                   | Need fn x => Need fn x
@@ -142,7 +156,7 @@ End Sim.
 
 Definition sx_inside (b : bool) : sx := SL [SZ 0; sx_bool b].
 
-Definition pm_nopanic_env (c : sx) : sx :=
+Definition env_with (b : bounds) (c : sx) : sx :=
   match c with
   | SL [pr; tab; st; SZ mode; SZ arg; wd] =>
       match un_profile pr, un_libm tab, un_state st, un_world wd with
@@ -151,16 +165,20 @@ Definition pm_nopanic_env (c : sx) : sx :=
           let reg := full_registry in
           if mode =? 0 then
             if STEP_BOUND <? arg then sx_inside false
-            else sx_res sx_bool (sim p reg false (Z.to_nat arg) w s)
+            else sx_res sx_bool (sim p reg b false (Z.to_nat arg) w s)
           else
             let s1 := copy_to_code s in
             let lim := cfg_eval_push_limit (st_cfg s1) in
             if STEP_BOUND <? lim then sx_inside false
-            else sx_res sx_bool (sim p reg true (Z.to_nat (lim + 1)) w s1)
+            else sx_res sx_bool (sim p reg b true (Z.to_nat (lim + 1)) w s1)
       | _, _, _, _ => sx_bad
       end
   | _ => sx_bad
   end.
+
+Definition pm_nopanic_env : sx -> sx := env_with env_bounds.
+(* the generators' filter: inside [quick_bounds] implies inside the envelope *)
+Definition pm_nopanic_envq : sx -> sx := env_with quick_bounds.
 
 (* ---- suite "run" reduced to normal return / panic ---- *)
 Definition pm_runnp (c : sx) : sx :=
